@@ -143,6 +143,47 @@ impl Family for Syntax {
         // the AST is only complete (every reference patched) when no error was reported
         let clean = !state.diagnostics.has_errors();
         let observed = if clean { Value::Array(state.files.iter().map(ast_project::file).collect()) } else { Value::Null };
+        // C09: every element path the printer knows, with the facts its span must satisfy
+        let mut span_failure: Option<Value> = None;
+        if clean && self.mode == "spans" {
+            'outer: for (fi, f) in files.iter().enumerate() {
+                let nrows = texts[fi].lines().count();
+                for facts in f["spans"].as_array().cloned().unwrap_or_default() {
+                    let path = facts["el"].as_array().cloned().unwrap_or_default();
+                    let last = path.last().and_then(|v| v.as_str()).unwrap_or("");
+                    let prev_is_index = path.len() >= 2 && path[path.len() - 1].is_number();
+                    let kind_step = if prev_is_index { path[path.len() - 2].as_str().unwrap_or("") } else { last };
+                    let Some(span) = ast_project::span_at(&state.files, &path) else {
+                        span_failure = Some(json!({"kind": "mismatch", "what": "no element found at a path the source declares", "el": path}));
+                        break 'outer;
+                    };
+                    let s = json!([span.start.row, span.start.col]);
+                    let e = json!([span.end.row, span.end.col]);
+                    let inside = span.start.row >= 1 && span.start.col >= 1 && span.end.row <= nrows + 1 && (span.start.row, span.start.col) <= (span.end.row, span.end.col);
+                    // identifiers, type references, attributes, integers: exactly the text; declarations: first token
+                    // of the declaration proper, name included, end on a token of the element
+                    let exact = matches!(kind_step, "id" | "t" | "e" | "k" | "v" | "s" | "x" | "u" | "b" | "a" | "fa" | "tag" | "val");
+                    let ok = if exact {
+                        s == facts["lo"] && e == facts["hi"]
+                    } else {
+                        let name_ok = match facts["name"].as_array() {
+                            Some(n) if n.len() == 2 => {
+                                let ns = (n[0][0].as_u64().unwrap_or(0), n[0][1].as_u64().unwrap_or(0));
+                                let ne = (n[1][0].as_u64().unwrap_or(0), n[1][1].as_u64().unwrap_or(0));
+                                (span.start.row as u64, span.start.col as u64) <= ns && ne <= (span.end.row as u64, span.end.col as u64)
+                            }
+                            _ => true,
+                        };
+                        s == facts["first"] && name_ok && facts["ends"].as_array().map(|a| a.contains(&e)).unwrap_or(false)
+                    };
+                    if !inside || !ok || span.file != format!("string-{fi}") {
+                        span_failure = Some(json!({"kind": "mismatch", "what": format!("span of a '{kind_step}' element"), "el": path, "exact": exact,
+                                                   "observed": [s, e], "facts": facts}));
+                        break 'outer;
+                    }
+                }
+            }
+        }
         let visited: Vec<Value> = if clean && self.mode == "visit" {
             state
                 .files
@@ -165,6 +206,8 @@ impl Family for Syntax {
         let expect = normalise(&case["expect"]);
         let fail = if !errors.is_empty() {
             Some(mismatch("a well-formed model program was rejected", json!([]), json!(errors)))
+        } else if self.mode == "spans" {
+            span_failure
         } else if self.mode == "visit" {
             first_diff(&case["visit"], &Value::Array(visited), "visit").map(|d| json!({"kind": "mismatch", "what": "visitor callbacks differ from the pre-order walk of the file", "at": d}))
         } else {
